@@ -64,6 +64,10 @@ func (tc *termCtx) termD(v ssa.Value, d int) string {
 		}
 		return "?" + x.Name()
 	case *ssa.BinOp:
+		if x.Op == token.ADD && isStringLike(x.Type()) {
+			// string concatenation is not commutative
+			return "(" + tc.termD(x.X, d-1) + " ++ " + tc.termD(x.Y, d-1) + ")"
+		}
 		return normBin(x.Op, tc.termD(x.X, d-1), tc.termD(x.Y, d-1))
 	case *ssa.Phi:
 		if t, ok := tc.shortCircuitPhi(x, d); ok {
